@@ -193,6 +193,8 @@ def run_tiny(mode, peer, timeout_s, stray):
 
 
 def outcome(r):
+    if r[0] == "exc" and r[1] == "Hang":
+        return "Hang"
     if r[0] == "ok":
         return "delivered" if r[1] == 4242 else f"wrong value {r[1]!r}"
     name = r[1][2:] if r[1].startswith("PySnmp") else r[1]
@@ -245,7 +247,12 @@ def run(chk, model_ok=True):
                 for i in range(0, len(async_cases), 6):
                     res += await asyncio.gather(*[run_async_one(c["peer"], c["sched"]) for c in async_cases[i:i + 6]])
                 return res
-            ares = asyncio.run(all_async()) if async_cases else []
+            ares = []
+            if async_cases:
+                ares = e2e.run_coro(all_async(), watchdog=10 + len(async_cases) * 1.0)
+                if ares is None:
+                    # the event loop never came back: a call that neither returned nor timed out
+                    ares = [(("exc", "Hang", True), 99.0)] * len(async_cases)
             for c, f in futs:
                 c["result"], c["elapsed"] = f.result()
         for c, (r, el) in zip(async_cases, ares):
@@ -275,6 +282,8 @@ def run(chk, model_ok=True):
             for stray in (False, True):
                 peer = peers[n_tiny % 2]
                 n_tiny += 1
+                if e2e.HUNG and mode == "async":
+                    continue           # a frozen event loop was already reported
                 r, el = run_tiny(mode, peer, T_s, stray)
                 line = f"# tiny timeout {T_s} s, {mode}, {peer.label}, stray={stray}"
                 if r is None:
@@ -295,6 +304,14 @@ def run(chk, model_ok=True):
         why = judge(c)
         line = f"recvsched {c['mode']} {T_TICKS} 0 " + (",".join(f"{t}:{k}" for t, k in c["sched"]) or "-")
         lines.append(line)
+        if why and outcome(c["result"]) == "Hang":
+            # the event loop froze (the call neither returned nor timed out): no re-run, frozen loops keep spinning
+            if not any("froze" in v[1] for v in chk.violations):
+                chk.violation("oracle", f"{c['mode']} {c['peer'].label}: the call never returned and froze the event loop; schedule {c['sched']}",
+                              {"kind": "oracle", "lines": [line], "schedule_ticks": c["sched"], "tick_s": TICK, "timeout_ticks": T_TICKS,
+                               "mode": c["mode"], "session": c["peer"].label})
+            bad += 1
+            continue
         if why:
             # timing: re-confirm twice before reporting
             confirmed = 0
